@@ -281,6 +281,8 @@ class Controller:
         hci.HCI_LE_SET_ADVERTISING_ENABLE_COMMAND,
         hci.HCI_LE_SET_SCAN_PARAMETERS_COMMAND,
         hci.HCI_LE_SET_SCAN_ENABLE_COMMAND,
+        hci.HCI_LE_SET_EXTENDED_SCAN_PARAMETERS_COMMAND,
+        hci.HCI_LE_SET_EXTENDED_SCAN_ENABLE_COMMAND,
         hci.HCI_LE_CREATE_CONNECTION_COMMAND,
         hci.HCI_LE_CREATE_CONNECTION_CANCEL_COMMAND,
         hci.HCI_LE_READ_FILTER_ACCEPT_LIST_SIZE_COMMAND,
@@ -2196,6 +2198,39 @@ class Controller:
         See Bluetooth spec Vol 4, Part E - 7.8.11 LE Set Scan Enable Command
         '''
         self.le_scan_enable = bool(command.le_scan_enable)
+        self.filter_duplicates = bool(command.filter_duplicates)
+        return hci.HCI_StatusReturnParameters(hci.HCI_ErrorCode.SUCCESS)
+
+    def on_hci_le_set_extended_scan_parameters_command(
+        self, command: hci.HCI_LE_Set_Extended_Scan_Parameters_Command
+    ) -> hci.HCI_StatusReturnParameters:
+        '''
+        See Bluetooth spec Vol 4, Part E - 7.8.64 LE Set Extended Scan Parameters
+        Command
+        '''
+        if self.le_scan_enable:
+            return hci.HCI_StatusReturnParameters(
+                hci.HCI_ErrorCode.COMMAND_DISALLOWED_ERROR
+            )
+
+        # The virtual link has a single PHY: scan actively if any PHY asks for it
+        self.le_scan_type = (
+            hci.HCI_LE_Set_Extended_Scan_Parameters_Command.ACTIVE_SCANNING
+            if hci.HCI_LE_Set_Extended_Scan_Parameters_Command.ACTIVE_SCANNING
+            in command.scan_types
+            else hci.HCI_LE_Set_Extended_Scan_Parameters_Command.PASSIVE_SCANNING
+        )
+        self.le_scan_own_address_type = hci.AddressType(command.own_address_type)
+        self.le_scanning_filter_policy = command.scanning_filter_policy
+        return hci.HCI_StatusReturnParameters(hci.HCI_ErrorCode.SUCCESS)
+
+    def on_hci_le_set_extended_scan_enable_command(
+        self, command: hci.HCI_LE_Set_Extended_Scan_Enable_Command
+    ) -> hci.HCI_StatusReturnParameters:
+        '''
+        See Bluetooth spec Vol 4, Part E - 7.8.65 LE Set Extended Scan Enable Command
+        '''
+        self.le_scan_enable = bool(command.enable)
         self.filter_duplicates = bool(command.filter_duplicates)
         return hci.HCI_StatusReturnParameters(hci.HCI_ErrorCode.SUCCESS)
 
